@@ -413,6 +413,19 @@ def _r7(body, fired):
             body = body[:t.start] + ' '.join(f'{l} = {ex};' for l, ex in zip(lhs, parts)) + body[end:]
             changed = True
             break
+    def rep_let_tuple(m):
+        names = [x.strip() for x in m.group(1).split(',')]
+        toks = lex(m.group(2))
+        parts = [text_of(p).strip() for p in split_top_commas(toks)]
+        if len(names) != len(parts):
+            return m.group(0)
+        for e in parts:
+            for t in lex(e):
+                if t.kind == 'id' and t.text in names:
+                    return m.group(0)
+        fired.add('R7')
+        return ' '.join(f'let {l} = {e};' for l, e in zip(names, parts))
+    body = re.sub(r'\blet\s*\(\s*([A-Za-z_]\w*(?:\s*,\s*[A-Za-z_]\w*)+)\s*\)\s*=\s*\(([^;]*)\)\s*;', rep_let_tuple, body)
     def rep_let(m):
         names = [s.strip() for s in m.group(1).split(',')]
         tys = [s.strip() for s in m.group(2).split(',')]
